@@ -608,13 +608,12 @@ class AsyncDispatcher(BaseDispatcher, Generic[ContextType]):
                         error=pjrpc.exceptions.InvalidRequestError(data="batch too large"),
                     )
                 else:
-                    response = self._batch_response(
-                        *(
-                            resp
-                            for resp in await asyncio.gather(*(self._request_handler(req, context) for req in request))
-                            if resp
-                        ),
-                    )
+                    if self._concurrent_batch:
+                        responses = await asyncio.gather(*(self._request_handler(req, context) for req in request))
+                    else:
+                        responses = [await self._request_handler(req, context) for req in request]
+
+                    response = self._batch_response(*(resp for resp in responses if resp))
                     if len(response) == 0:
                         # a batch of notifications only must not be answered
                         response = UNSET
